@@ -51,6 +51,8 @@ func runC08(p *Prog, r *Report) {
 	checkLogResults(p, r, "C08.R3")
 	r.Min("C08.R6", 2)
 	checkErrorLogger(p, r, "C08.R6")
+	r.Min("C08.R7", 2)
+	checkErrorDrain(p, r, "C08.R7")
 	// R5: results detected before completion are still drained: cancel only after done + exit delay
 	r.Min("C08.R5", 2)
 	for _, f := range engineCallers(p) {
@@ -618,5 +620,120 @@ func checkErrorLogger(p *Prog, r *Report, rule string) {
 	r.Check(len(uses) == 0, rule, "no-sampling-logger", "-", "no sampling zap logger is constructed (every error handed to Logger.Error becomes a record)", strings.Join(uses, "; "))
 	if nBuild == 0 && len(uses) == 0 {
 		r.Undecided(rule, "error logger construction", "-", "the zap logger is built through (zap.Config).Build", "no construction site found")
+	}
+}
+
+// checkErrorDrain (R7): every error the engine reports is logged. In the engine caller, the goroutine that
+// reads the engine's error channel logs each received error exactly once and leaves its loop only when the
+// channel is closed - not on cancellation, which happens while errors may still sit in the channel's buffer.
+func checkErrorDrain(p *Prog, r *Report, rule string) {
+	const fnLogErr = modPath + "/command/log.Logger.Error"
+	n := 0
+	for _, fn := range engineCallers(p) {
+		if fn.Pkg != p.SPkg("command") {
+			continue
+		}
+		var errc ssa.Value
+		for _, b := range fn.Blocks {
+			for _, in := range b.Instrs {
+				if c, ok := in.(*ssa.Call); ok && IsCallTo(&c.Call, fnEngineStart) {
+					errc = extractOf(c, 1)
+				}
+			}
+		}
+		if errc == nil {
+			r.Undecided(rule, FuncName(fn), p.Pos(fn.Pos()), "the engine's error channel is bound in the caller", "not found")
+			continue
+		}
+		isErrc := func(v ssa.Value) bool {
+			for _, o := range p.OriginsIP(v) {
+				if o == errc {
+					return true
+				}
+			}
+			return false
+		}
+		found := false
+		cands := append([]*ssa.Function{}, fn.AnonFuncs...)
+		// the loop may live in a helper the goroutine calls with the channel
+		for _, g := range fn.AnonFuncs {
+			for _, b := range g.Blocks {
+				for _, in := range b.Instrs {
+					if c, isC := in.(*ssa.Call); isC {
+						if h := StaticCallee(&c.Call); h != nil && h.Pkg == fn.Pkg && h.Parent() == nil && len(LoopHeaders(h)) > 0 {
+							cands = append(cands, h)
+						}
+					}
+				}
+			}
+		}
+		for _, g := range cands {
+			heads := loopHeadersSorted(g)
+			reads := false
+			gp := PathsInl(g)
+			for _, s := range gp.Segs {
+				for _, rc := range s.Recvs() {
+					if isErrc(rc.Chan) || isErrc(s.Resolve(rc.Chan)) {
+						reads = true
+					}
+				}
+			}
+			if !reads {
+				continue
+			}
+			found = true
+			n++
+			name := FuncName(g)
+			pos := p.Pos(g.Pos())
+			if len(heads) != 1 {
+				r.Undecided(rule, name, pos, "the error drain is one loop", fmt.Sprint(len(heads)))
+				continue
+			}
+			ok, why := true, ""
+			logged := false
+			for _, s := range gp.From(heads[0]) {
+				if s.IsSelectPanicTail() {
+					continue
+				}
+				var got ssa.Value
+				closed := false
+				for _, rc := range s.Recvs() {
+					if !isErrc(rc.Chan) && !isErrc(s.Resolve(rc.Chan)) {
+						continue
+					}
+					if rc.Ok != nil {
+						if k, v := s.BoolFact(rc.Ok); k && !v {
+							closed = true
+							continue
+						}
+					}
+					got = rc.Val
+				}
+				logs := s.CallsTo(fnLogErr)
+				switch {
+				case got != nil:
+					if len(logs) != 1 || !s.Same(logs[0].Call.Args[0], got) {
+						ok, why = false, fmt.Sprintf("a received error is logged %d times (or another value is logged)", len(logs))
+					} else if s.End != heads[0] {
+						ok, why = false, "the drain stops after an error"
+					} else {
+						logged = true
+					}
+				case closed:
+					if !s.Returns() {
+						ok, why = false, "the drain does not end when the channel is closed"
+					}
+				default:
+					if s.Returns() || s.End == nil {
+						ok, why = false, "the drain leaves its loop although the error channel is not closed (errors still buffered are never logged): "+strings.Join(s.Describe(p), " / ")
+					}
+				}
+			}
+			r.Check(ok && logged, rule, name, pos, "the error drain logs every received error once and ends only when the engine closes its error channel", why)
+		}
+		r.Check(found, rule, FuncName(fn)+"/has-drain", p.Pos(fn.Pos()), "a goroutine of the engine caller drains the engine's error channel", "no reader of the error channel")
+	}
+	if n == 0 {
+		r.Viol(rule, "error drain", "-", "the engine caller has an error drain", "not found")
 	}
 }
